@@ -71,6 +71,13 @@ def runCase (cx : Ctx) : String := Id.run do
   -- the same walk on the inner input of `rematch< until< eof >, … >`: same bytes, same positions
   for n in [0:tokCount cx + 1] do
     out := out.push (record cx "R" n (tokWalk cx n cx.start).cur.pos (posTok cx n))
+  -- behind every `a` (byte 97) and at the start: `until< one< 'a' > >` skips byte by byte with `bump()`, so the position is the scan of the prefix
+  out := out.push (record cx "U" 0 0 (posBump cx 0))
+  let mut j := 0
+  for k in [0:size] do
+    if cx.inp.getD k 0 == 97 then
+      j := j + 1
+      out := out.push (record cx "U" j (k + 1) (posBump cx (k + 1)))
   return " ".intercalate out.toList
 
 def step (line : String) : String :=
